@@ -18,8 +18,11 @@ def harnesses(tier):
     ]
     t = [
         Harness('c03_flags_uf_4', MOD, 3600, extra=ST, covers=cov2, mem_gb=24, desc='4 players, 13 symbolic distinct cards, arbitrary strengths'),
-        Harness('c03_flags_real_2', MOD, 3600, covers=cov2, mem_gb=16, desc='2 players, real MadeHand::from'),
     ]
+    # c03_flags_real_2 (2 players, the real MadeHand::from instead of the uninterpreted function) did not finish in 60 min and is not part of a
+    # tier; the real evaluator is the subject of C01, and an uninterpreted evaluator has strictly more behaviours.  (--only c03_flags_real_2 runs it.)
+    if False:
+        t.append(Harness('c03_flags_real_2', MOD, 14400, covers=cov2, mem_gb=24, desc='2 players, real MadeHand::from'))
     return q + (t if tier == 'thorough' else [])
 
 
@@ -69,7 +72,7 @@ def main():
                samples=[dict(harness=o.name, what=o.extra.get('description', ''), status=o.status, covers=o.extra.get('covers'), seconds=o.wall_s) for o in obs],
                functions_encoded=['Showdown::new', 'Showdown::winner_len/players/board/probability', 'ShowdownPlayer::hole_cards/board/cards/hand/is_winner',
                                   'CardPair::new, Index; derived PartialEq of Card', 'thorough: real MadeHand::from for n=2'],
-               bounds=f'Kani: player count n <= {nmax} with uninterpreted strengths (n=2 with the real evaluator in the thorough tier); Engine M (MIR of Showdown::new + winner_len, one uninterpreted evaluator function, every weaker/tie/stronger pattern): n <= {mmax}; a full table is 10: n > {mmax} is outside the claim',
+               bounds=f'Kani: player count n <= {nmax} with uninterpreted strengths (the real-evaluator harness for n=2 did not finish in 60 min and is not claimed); Engine M (MIR of Showdown::new + winner_len, one uninterpreted evaluator function, every weaker/tie/stronger pattern): n <= {mmax}; a full table is 10: n > {mmax} is outside the claim',
                stubs=notes + ['MadeHand::from replaced by an uninterpreted function of the card set (arbitrary class 1..=7462, same set => same value) — strictly more behaviours than the real evaluator'],
                states_meaning='CBMC property checks discharged (each over all symbolic boards/hole cards/strengths)', exhaustive=False)
     finish(PID, a.tier, 'model_checking', obs, cov, notes + ['hole cards differ from the board and from each other (property domain)'], t0, seed)
